@@ -1,12 +1,13 @@
 (* Dispatcher from check id to check function. *)
 From Coq Require Import ZArith List Bool.
-From DG Require Import CaseFormat Check20 Check01.
+From DG Require Import CaseFormat Check20 Check01 Check04.
 Import ListNotations.
 Local Open Scope Z_scope.
 
 Definition check_case (id : Z) (fs : list field) : verdict :=
   if id =? 101 then check_101 fs else
   if id =? 102 then check_102 fs else
+  if id =? 401 then check_401 fs else
   if id =? 2001 then check_2001 fs else
   if id =? 2002 then check_2002 fs else
   if id =? 2003 then check_2003 fs else
